@@ -985,6 +985,63 @@ func c05Verbatim(r *core.Run, root []*ssa.Function) {
 							continue
 						}
 					}
+					// the payload comes out of a private helper ("marshal or fall back"): judge the helper's
+					// returns with its parameters bound to this call
+					if hc, ok := core.Strip(s.v).(*ssa.Call); ok {
+						if cal := hc.Common().StaticCallee(); cal != nil && cal.Pkg == fn.Pkg && len(cal.Blocks) > 0 && cal.Signature.Results().Len() == 1 {
+							rs := core.NewResolver()
+							rs.Bind(hc)
+							var hm []*ssa.Call
+							for _, c2 := range core.Calls(cal) {
+								if call, ok := c2.(*ssa.Call); ok && core.CalleeName(call) == "encoding/json.Marshal" && holds(rs.R(call.Call.Args[0])) {
+									hm = append(hm, call)
+								}
+							}
+							good, why := len(hm) > 0, "the helper marshals nothing that holds the *Error"
+							for _, ret := range core.Returns(cal) {
+								for _, s2 := range phiSources(ret.Results[0]) {
+									if ex, ok := core.Strip(s2.V).(*ssa.Extract); ok && ex.Index == 0 {
+										isHM := false
+										for _, m := range hm {
+											if ex.Tuple == ssa.Value(m) {
+												isHM = true
+											}
+										}
+										if isHM {
+											continue
+										}
+									}
+									if g, ok := loadedGlobal(s2.V); ok {
+										under := false
+										for _, e := range srcEdges(ret, s2) {
+											ci := core.Cond(e.If.Cond)
+											if ci.Kind != "nilcmp" {
+												continue
+											}
+											if ex, ok := core.Strip(ci.X).(*ssa.Extract); ok && ex.Index == 1 {
+												for _, m := range hm {
+													truth := e.Succ == 0
+													if ci.Negate {
+														truth = !truth
+													}
+													if ex.Tuple == ssa.Value(m) && ((ci.Op == token.NEQ && truth) || (ci.Op == token.EQL && !truth)) {
+														under = true
+													}
+												}
+											}
+										}
+										if !under {
+											good, why = false, "the helper returns the static literal "+g+" on a path that is not the marshal-failure edge"
+										}
+										continue
+									}
+									good, why = false, "the helper returns "+valDesc(s2.V)
+								}
+							}
+							r.Check(good, "E3", core.FuncName(fn), key, p.InstrPos(c), "the payload is what "+core.FuncName(cal)+" marshals from the *Error handed in (static literal only on its marshal-failure edge)", "the error payload does not encode the *Error handed in: "+why)
+							continue
+						}
+					}
 					if m := marshalOf(s.v); m != nil {
 						r.Check(holds(m.Call.Args[0]), "E3", core.FuncName(fn), key, p.InstrPos(c), "the payload encodes the *Error handed in", "the error payload is marshalled from a value that does not hold the *Error handed in")
 						continue
